@@ -101,7 +101,7 @@ class ArithOptimal(Contract):
                         continue
                     for method in ('raw', 'repr'):
                         shapes = [([], [])]
-                        if tier == 'thorough' or (x[1] == 3 and y[1] == 3):
+                        if (tier == 'thorough' and x[1] <= 2 and y[1] <= 2) or (x[1] == 3 and y[1] == 3):
                             shapes += [([2], [2]), ([2], [])]
                         for shx, shy in shapes:
                             yield dict(op=op, x=list(x), y=list(y), method=method, shx=shx, shy=shy)
@@ -172,11 +172,11 @@ class ArithOptimal(Contract):
 # ==========================================================================================================
 def imposed_formats(tier):
     out = []
-    words = (2, 3, 8, 12) if tier == 'quick' else range(2, 13)
+    words = (2, 3, 8, 12) if tier == 'quick' else (2, 3, 4, 5, 8, 12)
     for s in (True, False):
         for n in words:
             top = n - int(s)
-            fr = sorted({0, n // 2, top}) if tier == 'quick' else range(0, top + 1)
+            fr = sorted({0, n // 2, top}) if (tier == 'quick' or n > 4) else range(0, top + 1)
             for f in fr:
                 out.append((s, n, f))
     return out
